@@ -186,6 +186,26 @@ def replay_rows(args):
     return calls, bad
 
 
+def _guarded(job):
+    """an exception raised by the code under test while a table row is replayed is a violation of that row, not a machinery error"""
+    fname, (part, rows, seed) = job
+    fn = globals()[fname]
+    try:
+        return fn((part, rows, seed))
+    except Exception:
+        pass
+    calls, bad = 0, []
+    for r in rows:
+        try:
+            c, b = fn((part, [r], seed))
+            calls += c
+            bad += b
+        except Exception as e:
+            row = r if not isinstance(r, dict) else {k: v for k, v in r.items() if k != "ans"}
+            bad.append({"kind": "exception-" + part, "row": row if isinstance(row, dict) else {"cone": "?", "row": repr(row)[:300]}, "scale": "-", "expected": "an answer", "got": repr(e)[:200]})
+    return calls, bad
+
+
 def replay(ctx, part, rows, seed, every):
     """mark every `every`-th row for all scales, then fan out."""
     rnd = random.Random(seed)
@@ -194,7 +214,7 @@ def replay(ctx, part, rows, seed, every):
     for i, r in enumerate(rows):
         r["allscales"] = (i % every == 0)
     jobs = [(part, ch, seed + i) for i, ch in enumerate(chunks(rows, 64))]
-    out = pmap(replay_rows, jobs)
+    out = pmap(_guarded, [("replay_rows", j) for j in jobs])
     calls = sum(c for c, _ in out)
     bad = [b for _, bs in out for b in bs]
     return calls, bad
@@ -288,7 +308,7 @@ def replay3(ctx, part, rows, seed, every):
     rnd.shuffle(rows)
     for i, r in enumerate(rows):
         r["allscales"] = (i % every == 0)
-    out = pmap(replay_rows3, [(part, ch, seed + i) for i, ch in enumerate(chunks(rows, 32))])
+    out = pmap(_guarded, [("replay_rows3", (part, ch, seed + i)) for i, ch in enumerate(chunks(rows, 32))])
     return sum(c for c, _ in out), [b for _, bs in out for b in bs]
 
 
@@ -398,7 +418,7 @@ def replay_ell(ctx, part, rows, seed, every):
     rnd.shuffle(rows)
     for i, r in enumerate(rows):
         r["allscales"] = (i % every == 0)
-    out = pmap(replay_rows_ell, [(part, ch, seed + i) for i, ch in enumerate(chunks(rows, 64))])
+    out = pmap(_guarded, [("replay_rows_ell", (part, ch, seed + i)) for i, ch in enumerate(chunks(rows, 64))])
     return sum(c for c, _ in out), [b for _, bs in out for b in bs]
 
 
@@ -457,13 +477,20 @@ def eval3d_rows(args):
             tri = [R.cov_box(W, b1, b2, s, dt) for dt in (-1, 0, 1)]
             if tri[0] != tri[2]:
                 continue
-            got = bool(confidence_region_is_covered(orders[cone], R1, R2, np.array(s, float) * k))
+            try:
+                got = bool(confidence_region_is_covered(orders[cone], R1, R2, np.array(s, float) * k))
+            except Exception as e:
+                got = "raised " + repr(e)[:160]
             calls += 1
             if got != tri[1]:
                 bad.append({"kind": "rect3d-cov", "row": {"cone": cone, "r1": b1, "r2": b2, "s": s}, "scale": k, "expected": tri[1], "got": got})
         else:
             tri = [R.pdom_box(W, b1, b2, dt) for dt in (-1, 0, 1)]
-            got = bool(confidence_region_check_dominates(orders[cone], R1, R2))
+            try:
+                got = bool(confidence_region_check_dominates(orders[cone], R1, R2))
+            except Exception as e:
+                bad.append({"kind": "rect3d-pdom-exception", "row": {"cone": cone, "r1": b1, "r2": b2, "s": s}, "scale": k, "expected": "an answer", "got": "raised " + repr(e)[:160]})
+                got = False
             calls += 1
             if got and not tri[0]:
                 bad.append({"kind": "rect3d-pdom-unsound", "row": {"cone": cone, "r1": b1, "r2": b2, "s": s}, "scale": k, "expected": False, "got": True})
